@@ -96,7 +96,8 @@ class ProxiedRegion(BaseClientRegion):
         that we inject into the seed response sent to the viewer.
         """
         parsed = list(urllib.parse.urlsplit(self.caps[name][1]))
-        seed_id = self.caps["Seed"][1].split("/")[-1].encode("utf8")
+        # Hash the whole Seed URI, its last path segment alone may well be empty (OpenSim's ends in "/")
+        seed_id = self.caps["Seed"][1].encode("utf8")
         # Give it a unique domain tied to the current Seed URI
         parsed[1] = f"{name.lower()}-{hashlib.sha256(seed_id).hexdigest()[:16]}.hippo-proxy.localhost"
         # Force the URL to HTTP, we're going to handle the request ourselves so it doesn't need
